@@ -91,7 +91,7 @@ impl Property for C18 {
             knobs: Knobs { max_nodes, ..Default::default() },
         };
         match tier {
-            Tier::Quick => vec![mk("trees", 40_000, 24)],
+            Tier::Quick => vec![mk("trees", 300_000, 24)],
             Tier::Thorough => vec![mk("trees", 1_500_000, 24), mk("trees-big", 60_000, 100)],
         }
     }
